@@ -333,6 +333,28 @@ def start_result(prog, rep):
     return upd
 
 
+_FC, _DP = ("attr", SELF, "_fitted_conditioners"), ("attr", SELF, "dependent_parameters")
+
+
+def _all_fitted(l):
+    """True: the literal says every conditioner is among the fitted ones; False: it says something else about them; None: not about them"""
+    from vstat.terms import ordered as _ordered
+    FC, DP = _FC, _DP
+    if not mentions(l, FC):
+        return None
+    if l[0] == "call" and l[1][0] == "attr" and l[1][2] in ("issubset", "issuperset") and len(l[2]) == 1:
+        small, big = (l[1][1], l[2][0]) if l[1][2] == "issubset" else (l[2][0], l[1][1])
+        return mentions(small, DP) and not mentions(small, FC) and mentions(big, FC) and not mentions(big, DP)
+    o = _ordered(l)
+    if o is not None:
+        return mentions(o[0], DP) and not mentions(o[0], FC) and mentions(o[1], FC) and not mentions(o[1], DP) and not o[2]
+    if l[0] == "cmp" and l[1] == "==":
+        return mentions(l, DP)
+    if l[0] == "call" and l[1] == G("all"):
+        return any(w[0] == "cmp" and w[1] == "in" and w[3] == FC for w in walk(l)) and mentions(l, DP)
+    return False
+
+
 def protocol(prog, rep):
     # (i) constructor
     init = prog.func(f"{DF}.__init__")
@@ -343,9 +365,47 @@ def protocol(prog, rep):
     mf = [(s, bi.term(s.value, s), pi.of(s)) for s in cfg.all_stmts() if isinstance(s, ast.Assign) and isinstance(s.targets[0], ast.Attribute) and s.targets[0].attr == "_may_fit"]
     t_first = [x for x in mf if x[1] == ("const", True) and not x[2] and not cfg.enclosing_loops(x[0])]
     f_in = [x for x in mf if x[1] == ("const", False) and cfg.enclosing_loops(x[0]) and any(l[0] == "cmp" and l[1] == "in" for l in x[2])]
-    ok = len(t_first) == 1 and len(f_in) == 1 and len(mf) == 2 and t_first[0][0].lineno < f_in[0][0].lineno
-    rep.check(ok, "C14.protocol", f"{init.qualname}:may-fit", init.where(), "_may_fit = True, set to False for every dependence-function parameter",
-              "a function with dependence-function parameters must start with _may_fit = False (and True otherwise)")
+    late = [x for x in mf if x not in t_first and x not in f_in and not cfg.enclosing_loops(x[0]) and _all_fitted(x[1]) is True]
+    ok = len(t_first) == 1 and len(f_in) + len(late) >= 1 and len(mf) == 1 + len(f_in) + len(late) and all(t_first[0][0].lineno < x[0].lineno for x in f_in + late)
+    rep.check(ok, "C14.protocol", f"{init.qualname}:may-fit", init.where(), "_may_fit = True, set to False for a dependence-function parameter that is not fitted yet",
+              "a function with (unfitted) dependence-function parameters must start with _may_fit = False (and True otherwise)")
+    # a conditioner that was fitted BEFORE this function was declared sends no callback any more: the function must learn that from the
+    # conditioner itself (a fitted flag every function sets at the end of _fit), else fit() only records the data and never fits
+    _fit0 = prog.func(f"{DF}._fit")
+    b0 = builder(prog, _fit0, inline=False)
+    c0 = cfg_of(_fit0)
+    upd0 = [s for s in c0.all_stmts() if isinstance(s, ast.Assign) and isinstance(s.targets[0], ast.Attribute) and s.targets[0].attr == "parameters"]
+    set_true = {}
+    for s in c0.all_stmts():
+        if isinstance(s, ast.Assign) and isinstance(s.targets[0], ast.Attribute) and b0.term(s.targets[0].value, s) == SELF and b0.term(s.value, s) == ("const", True):
+            if len(upd0) == 1 and c0.every_path_passes(c0.node(upd0[0]), [c0.node(s)], to=(EXIT,)):
+                set_true[s.targets[0].attr] = s
+    starts_false = {s.targets[0].attr for s in cfg.all_stmts() if isinstance(s, ast.Assign) and isinstance(s.targets[0], ast.Attribute) and bi.term(s.targets[0].value, s) == SELF
+                    and bi.term(s.value, s) == ("const", False) and not pi.of(s) and not cfg.enclosing_loops(s)}
+    flags = sorted(set(set_true) & starts_false)
+    okl = False
+    why_l = ("no fitted flag found: no attribute that __init__ sets to False and _fit sets to True after the parameters were updated, so a function declared after its "
+             "conditioner was fitted (c.fit(x, y); d = DependenceFunction(f, c_of_x=c); d.fit(x, y)) keeps _may_fit False for ever and is never fitted")
+    if flags:
+        def says_fitted(l):
+            """+1: the literal says a conditioner's fitted flag is set, -1: that it is not, 0: something else"""
+            sign = 1
+            while l[0] == "not":
+                sign, l = -sign, l[1]
+            if l[0] == "attr" and l[2] in flags and l[1] != SELF:
+                return sign
+            if l[0] == "call" and l[1] == G("getattr") and len(l[2]) == 3 and l[2][1][0] == "const" and l[2][1][1] in flags and l[2][2] == ("const", False):
+                return sign
+            return 0
+        adds = [s for s in cfg.all_stmts() if isinstance(s, ast.Expr) and isinstance(s.value, ast.Call) and bi.term(s.value, s)[0] == "call"
+                and bi.term(s.value, s)[1] == ("attr", _FC, "add") and cfg.enclosing_loops(s)]
+        add_ok = bool(adds) and all(any(says_fitted(l) == 1 for l in pi.of(s)) for s in adds)
+        false_ok = all(any(says_fitted(l) == -1 for l in x[2]) for x in f_in)
+        okl = add_ok and (false_ok if f_in else bool(late))
+        why_l = (f"the fitted flag {flags} is kept, but the constructor does not use it: a conditioner whose flag is set must be added to _fitted_conditioners, and "
+                 "_may_fit must stay True unless some conditioner is still unfitted"
+                 f" (adds under the flag: {add_ok}; _may_fit = False only under 'not fitted': {false_ok if f_in else bool(late)})")
+    rep.check(okl, "C14.protocol", f"{init.qualname}:declared-late", init.where(), "a conditioner fitted before the declaration counts as fitted", why_l)
     deps = [s for s in cfg.all_stmts() if isinstance(s, ast.Assign) and isinstance(s.targets[0], ast.Attribute) and s.targets[0].attr == "dependents"]
     rep.check(len(deps) == 1 and bi.term(deps[0].value, deps[0]) == ("list", ()), "C14.protocol", f"{init.qualname}:dependents", init.where(), "self.dependents = []",
               "every function must start with its own empty list of dependents")
@@ -368,10 +428,26 @@ def protocol(prog, rep):
             t = bf.term(s.value, s)
             if t[0] == "call" and t[1] == ("attr", SELF, "_fit"):
                 call = (s, t)
-    ok = set(rec) == {"x", "y"} and rec["x"][1] == P("x") and rec["y"][1] == P("y") and call is not None
+    def conv(t, name):
+        """the parameter itself (False) or a value-preserving array conversion of it (True); None for anything else"""
+        if t == P(name):
+            return False
+        if t[0] == "call" and t[1] in (G("numpy.asarray"), G("numpy.array"), G("numpy.asanyarray"), G("numpy.asarray_chkfinite")) and len(t[2]) == 1 and t[2][0] == P(name) \
+                and all(k == "dtype" and v in (G("float"), G("numpy.float64")) for k, v in t[3]):
+            return True
+        return None
+    ok = set(rec) == {"x", "y"} and conv(rec["x"][1], "x") is not None and conv(rec["y"][1], "y") is not None and call is not None
+    raw_call = call is not None and any(conv(a, n_) is False for a, n_ in zip(call[1][2], ("x", "y")))
+    rep.check(bool(ok and conv(rec["x"][1], "x") and conv(rec["y"][1], "y") and not raw_call), "C14.protocol", f"{fit.qualname}:array-like", fit.where(), "x and y are recorded as arrays",
+              "x and y are documented as array-like, but they reach the function (func(x, *p) on the SLSQP path) and the weights callable (weights(x, y)) as they were "
+              "passed: ConditionalDistribution.fit hands the estimates over as a Python LIST, so weights=lambda x, y: 1 / y raises TypeError, 2 * y repeats the list, "
+              "and a constrained fit of list data raises; record np.asarray(x), np.asarray(y)")
     if ok:
         s, t = call
-        ok = tuple(pf.of(s)) == (("attr", SELF, "_may_fit"),) and t[2] in ((("attr", SELF, "x"), ("attr", SELF, "y")), (P("x"), P("y"))) \
+        def arg_ok(a, name):
+            return a == ("attr", SELF, name) or conv(a, name) is not None
+        raw_args = [n_ for a, n_ in zip(t[2], ("x", "y")) if conv(a, n_) is False]
+        ok = tuple(pf.of(s)) == (("attr", SELF, "_may_fit"),) and len(t[2]) == 2 and arg_ok(t[2][0], "x") and arg_ok(t[2][1], "y") \
             and all(cf.dominates(cf.node(rec[k][0]), cf.node(cf.enclosing(s)[0][0] if cf.enclosing(s) else s)) and not pf.of(rec[k][0]) for k in rec)
     rep.check(ok, "C14.protocol", f"{fit.qualname}:record-then-test", fit.where(), "self.x, self.y = x, y recorded unconditionally before 'if self._may_fit: self._fit(x, y)'",
               "fit must record (x, y) BEFORE testing _may_fit (a premature call is replayed by callback) and fit only when _may_fit")
@@ -416,25 +492,7 @@ def protocol(prog, rep):
               "fitted before its conditioner keeps parameters from the unfitted conditioner")
     added = any(isinstance(s, ast.Expr) and bc.term(s.value, s) == ("call", ("attr", ("attr", SELF, "_fitted_conditioners"), "add"), (P("caller"),), ()) for s in cc.all_stmts())
     rep.check(added, "C14.protocol", f"{cb.qualname}:record-caller", cb.where(), "_fitted_conditioners.add(caller)", "callback must record which conditioner has been fitted")
-    # the enabling condition mentions the recorded conditioners
-    FC, DP = ("attr", SELF, "_fitted_conditioners"), ("attr", SELF, "dependent_parameters")
-    from vstat.terms import ordered as _ordered
-
-    def all_fitted(l):
-        """True: the literal says every conditioner is among the fitted ones; False: it says something else about them; None: not about them"""
-        if not mentions(l, FC):
-            return None
-        if l[0] == "call" and l[1][0] == "attr" and l[1][2] in ("issubset", "issuperset") and len(l[2]) == 1:
-            small, big = (l[1][1], l[2][0]) if l[1][2] == "issubset" else (l[2][0], l[1][1])
-            return mentions(small, DP) and not mentions(small, FC) and mentions(big, FC) and not mentions(big, DP)
-        o = _ordered(l)
-        if o is not None:
-            return mentions(o[0], DP) and not mentions(o[0], FC) and mentions(o[1], FC) and not mentions(o[1], DP) and not o[2]
-        if l[0] == "cmp" and l[1] == "==":
-            return mentions(l, DP)
-        if l[0] == "call" and l[1] == G("all"):
-            return any(w[0] == "cmp" and w[1] == "in" and w[3] == FC for w in walk(l)) and mentions(l, DP)
-        return False
+    all_fitted = _all_fitted
     verdicts = [all_fitted(l) for l in (pc.of(en[0]) if en else ())]
     okc = bool(en) and True in verdicts and False not in verdicts
     rep.check(okc, "C14.protocol", f"{cb.qualname}:condition", cb.where(), "fitting is enabled when EVERY conditioner has been fitted (conditioners <= fitted)",
